@@ -372,9 +372,10 @@ pub fn main(args: &Args) -> i32 {
     let kinds = args.get("kinds", "mem,sql,sqlmulti");
     let corpus = args.get("corpus", "1") == "1";
     let probe = args.get("probe", "0") == "1";
-    // request mix: all four operations, AddVersion only (C02), GetChildVersion against AddVersion (C08)
+    // request mix: all four operations, AddVersion only (C02), GetChildVersion against AddVersion (C08), snapshots (C10)
+    let minprefill = args.num("minprefill", 0) as usize; // > 0: the client exists with that many versions at least
     let mix = args.get("mix", "all");
-    let weights: [usize; 4] = match mix.as_str() { "av" => [100, 0, 0, 0], "gcvav" => [50, 50, 0, 0], _ => [50, 15, 22, 13] };
+    let weights: [usize; 4] = match mix.as_str() { "av" => [100, 0, 0, 0], "gcvav" => [50, 50, 0, 0], "asav" => [30, 0, 55, 15], _ => [50, 15, 22, 13] };
     let f = std::fs::File::create(args.get("out", "/dev/stdout")).expect("cannot create output file");
     let mut w = BufWriter::new(f);
     let kinds: Vec<&str> = kinds.split(',').collect();
@@ -384,7 +385,7 @@ pub fn main(args: &Args) -> i32 {
         let base = std::env::var("VERIF_SCRATCH").unwrap_or_else(|_| "/dev/shm".into());
         let c = r.uuid();
         // scenario: client state before, and the 2-3 concurrent requests
-        let prefill_k = if corpus && hi / kinds.len() < 2 { 0 } else { *r.pick(&[0usize, 0, 1, 3, 6]) };
+        let prefill_k = if corpus && hi / kinds.len() < 2 { 0 } else { *r.pick(&[0usize, 0, 1, 3, 6]).max(&minprefill) };
         let snap_at = if prefill_k > 0 && r.chance(1, 2) { Some(r.below(prefill_k)) } else { None };
         let nreq = if corpus && hi / kinds.len() < 2 { if hi / kinds.len() == 0 { 2 } else { 3 } } else { 2 + r.below(2) };
         let mk = |storages: &mut Vec<Arc<dyn Storage>>, dir: &std::path::Path| -> Vec<Uuid> {
